@@ -239,3 +239,14 @@ PROPS["C09"] = {
 }
 _lv("C09", "Kernel: setState/onStateChange/updateProcState for every status string. Project: every status write of the real runner on a 2-process project (exit 0/3, runs on, start error; restart policy; dependency edge; a stop at any labelled point) is checked against the legal-transition relation of the statement; an observer reads the public state at arbitrary scheduling points; at quiescence is_running, exit code, restart count and absence of transient states are compared with the stub Commander's ground truth.",
     "Stub Commander; N=2; transition relation written from the statement (self loops ignored).")
+
+PROPS["C11"] = {
+    "harnesses": [
+        {"pkg": "app", "name": "VerifC11_Lines", "quick": {}, "thorough": {},
+         "bounds": {"stream": "<=3 complete lines + final fragment, each every byte string over {a,b,space} of length <=2 (empty lines, missing final newline included)"}},
+    ],
+    "stubs": ["bufio.Reader.ReadString by its documented contract over the scripted stream (natively the real bufio over the same bytes)", "logger: NilLogger (the log file path is outside)"],
+    "assumptions": ["real pipes, kernel buffering, zerolog formatting, file contents and rotation are outside the claim (reduced scope)"],
+}
+_lv("C11", "handleOutput/handleInfo/ProcessLogBuffer.Write over a scripted stream of <=3 complete lines plus a final fragment with symbolic contents: the in-memory log holds exactly the delivered lines, once, in order, newline stripped, an unterminated last line included; end of stream signalled once.",
+    "bufio.ReadString modelled by its contract under symgo (real bufio natively); very long lines and the log-file path (zerolog, files) are outside - reduced scope.")
